@@ -102,6 +102,7 @@ class SockWorld:
             # a subscriber that takes its time (records when it has finished)
             d = self.msg_delays.pop(0)
             if d:
+                self.log.add("SUB.msg_slow", delay=d)
                 await asyncio.sleep(d)
             else:
                 await asyncio.sleep(0)
